@@ -593,3 +593,467 @@ OPEN_TYPES_INDEF = _copy.copy(OPEN_TYPES)
 OPEN_TYPES_INDEF.id = 'ber.decoder::ConstructedPayloadDecoderBase.indefLenValueDecoder@open-types'
 OPEN_TYPES_INDEF.qual = 'ConstructedPayloadDecoderBase.indefLenValueDecoder'
 CONTRACTS = CONTRACTS + [OPEN_TYPES, OPEN_TYPES_INDEF]
+
+
+# ---- choosing the value decoder: by the recovered tag set (schemaless) or by the guiding type -----------------------------
+FULL_DEC = Obj('PayloadDecoder', {'__truthy__': True}, name='decoderForFullTagSet')
+BASE_DEC = Obj('PayloadDecoder', {'__truthy__': True}, name='decoderForBaseTag')
+TYPE_DEC = Obj('PayloadDecoder', {'__truthy__': True}, name='decoderForTypeId')
+
+
+def _sel_tagset(ex, env):
+    base = Obj('TagSet', {}, name='tagSet[:1]')
+
+    def getslice(ex2, self, lo, hi):
+        if lo is None and concrete(hi) == 1:
+            return base
+        raise Unsupported('slice of tagSet other than [:1]')
+
+    def eq(ex2, self, other):
+        if isinstance(other, Obj) and other.name == 'asn1Spec.tagSet':
+            return z3.Bool('tags.equal')
+        return ex2.identical(self, other)
+    o = Obj('TagSet', {'base': base}, {'__getslice__': getslice, '__eq__': eq}, name='tagSet')
+    return o
+
+
+def _by_identity_map(name, table):
+    """mapping looked up by the identity of the key: table = [(key name, has-flag name, value)]"""
+    def getitem(ex, self, key):
+        for kname, flag, value in table:
+            if isinstance(key, Obj) and key.name == kname:
+                if ex.choose(z3.Bool(flag), flag):
+                    return value
+                raise _Raise(ExcV('KeyError'))
+        raise _Raise(ExcV('KeyError'))
+
+    def contains(ex, self, key):
+        for kname, flag, value in table:
+            if isinstance(key, Obj) and key.name == kname:
+                return z3.Bool(flag)
+        return False
+    return Obj('dict', {}, {'__getitem__': getitem, '__contains__': contains}, name=name)
+
+
+BY_TAG = region(
+    'stGetValueDecoderByTag', 'state is stGetValueDecoderByTag', 'complete',
+    dict(tagSet=PDerived(_sel_tagset), state=PConst(STATES['stGetValueDecoderByTag']),
+         tagMap=PConst(_by_identity_map('tagMap', [('tagSet', 'tagMap.hasFull', FULL_DEC),
+                                                   ('tagSet[:1]', 'tagMap.hasBase', BASE_DEC)])),
+         concreteDecoder=PConst(None)),
+    properties=['C16', 'C13', 'C15'],
+    exit_ensures=[
+        ('codec-of-the-full-tag-set-first', 'hasFull ==> (concreteDecoder is fullDec and state == stDecodeValue)'),
+        ('base-tag-fallback', '(not hasFull and hasBase) ==> (concreteDecoder is baseDec and state == stDecodeValue)'),
+        ('otherwise-try-as-explicit-tag', '(not hasFull and not hasBase) ==> (concreteDecoder is None and '
+                                          'state == stTryAsExplicitTag)')],
+    note='schemaless decoding: the codec registered for the whole recovered tag set, else the one for its innermost '
+         '(base) tag, else the element is unwrapped as an explicit tag')
+BY_TAG.globals.update({'hasFull': z3.Bool('tagMap.hasFull'), 'hasBase': z3.Bool('tagMap.hasBase'), 'fullDec': FULL_DEC,
+                       'baseDec': BASE_DEC})
+BY_TAG.is_generator = True
+
+
+ASN1TYPE_CLS = Obj('type', {}, name='Asn1Type-class')
+TAGMAP_CLS = Obj('type', {}, name='TagMap-class')
+
+
+def _guiding_type(ex, env):
+    ts = Obj('TagSet', {'baseTag': Obj('Tag', {}, name='asn1Spec.baseTag')}, name='asn1Spec.tagSet')
+    tm = _by_identity_map('asn1Spec.tagMap', [('tagSet', 'spec.tagMap.has', True)])
+    return Obj('Asn1Type', {'tagSet': ts, 'tagMap': tm, 'typeId': 'spec-type-id', '__class__': ASN1TYPE_CLS},
+               name='asn1Spec')
+
+
+def _sel_tagset_ctor(ex, base=None, *tags):
+    return Obj('TagSet', {}, name='baseTagSetOfSpec')
+
+
+BY_SPEC = region(
+    'stGetValueDecoderByAsn1Spec', 'state is stGetValueDecoderByAsn1Spec', 'complete',
+    dict(tagSet=PDerived(_sel_tagset), state=PConst(STATES['stGetValueDecoderByAsn1Spec']),
+         asn1Spec=PDerived(_guiding_type),
+         typeMap=PConst(_by_identity_map('typeMap', [])), tagMap=PConst(_by_identity_map('tagMap', [
+             ('baseTagSetOfSpec', 'tagMap.hasBase', BASE_DEC)])),
+         concreteDecoder=PConst(None)),
+    properties=['C13', 'C15', 'C10'],
+    exit_ensures=[
+        # C13: a value is decoded under the guiding type only if the tags on the wire are the type's own tag set or one
+        # its tag map lists (CHOICE alternatives, ANY); otherwise the element is tried as an explicit tag, never decoded
+        ('no-codec-unless-the-tags-match', '(not tagsEqual and not inTagMap) ==> (concreteDecoder is None and '
+                                           'state == stTryAsExplicitTag)'),
+        ('codec-by-type-id-else-by-base-tag', '(tagsEqual or inTagMap) ==> ('
+         '(byType and concreteDecoder is typeDec and state == stDecodeValue) or '
+         '(not byType and hasBase and concreteDecoder is baseDec and state == stDecodeValue) or '
+         '(not byType and not hasBase and concreteDecoder is None and state == stTryAsExplicitTag))')],
+    note='guided decoding with a type object as asn1Spec (the TagMap case of nested CHOICE/SET lookups is contract '
+         'type.tagmap::TagMap.__getitem__)')
+
+
+def _type_map(ex, env):
+    def getitem(ex2, self, key):
+        if ex2.choose(z3.Bool('typeMap.has'), 'typeMap-has'):
+            return TYPE_DEC
+        raise _Raise(ExcV('KeyError'))
+    return Obj('dict', {}, {'__getitem__': getitem}, name='typeMap')
+
+
+BY_SPEC.params['typeMap'] = PDerived(_type_map)
+BY_SPEC.globals.update({'tagsEqual': z3.Bool('tags.equal'), 'inTagMap': z3.Bool('spec.tagMap.has'),
+                        'byType': z3.Bool('typeMap.has'), 'hasBase': z3.Bool('tagMap.hasBase'), 'typeDec': TYPE_DEC,
+                        'baseDec': BASE_DEC,
+                        'tagmap': {'TagMap': TAGMAP_CLS, '__name__': 'tagmap'},
+                        'tag': dict(TAGC, __name__='tag', TagSet=FnV(_sel_tagset_ctor, 'tag.TagSet'))})
+CONTRACTS = CONTRACTS + [BY_TAG, BY_SPEC]
+
+
+# the same state when the guide is a TagMap (members of a SET / alternatives of an untagged CHOICE member)
+CHOSEN_T = Obj('Asn1Type', {'tagSet': Obj('TagSet', {'baseTag': Obj('Tag', {}, name='chosen.baseTag')}, name='chosen.tagSet'),
+                            'typeId': 'chosen-type-id'}, name='chosenType')
+
+
+def _guiding_map(ex, env):
+    def getitem(ex2, self, key):
+        if not (isinstance(key, Obj) and key.name == 'tagSet'):
+            raise Unsupported('TagMap looked up by something other than the recovered tag set')
+        if ex2.choose(z3.Bool('spec.map.has'), 'map-has'):
+            return CHOSEN_T
+        raise _Raise(ExcV('KeyError'))
+    return Obj('TagMap', {'__class__': TAGMAP_CLS}, {'__getitem__': getitem}, name='asn1Spec')
+
+
+BY_SPEC_MAP = region(
+    'stGetValueDecoderByAsn1Spec', 'state is stGetValueDecoderByAsn1Spec', 'complete',
+    dict(tagSet=PDerived(_sel_tagset), state=PConst(STATES['stGetValueDecoderByAsn1Spec']),
+         asn1Spec=PDerived(_guiding_map), typeMap=PDerived(_type_map),
+         tagMap=PConst(_by_identity_map('tagMap', [('baseTagSetOfSpec', 'tagMap.hasBase', BASE_DEC)])),
+         concreteDecoder=PConst(None)),
+    properties=['C13', 'C15', 'C10'],
+    exit_ensures=[
+        ('no-codec-unless-the-map-has-the-tags', '(not inMap) ==> (concreteDecoder is None and state == stTryAsExplicitTag)'),
+        ('the-mapped-type-guides-the-value', 'state == stDecodeValue ==> (inMap and asn1Spec is chosenType)'),
+        ('codec-by-type-id-else-by-base-tag', 'inMap ==> ('
+         '(byType and concreteDecoder is typeDec and state == stDecodeValue) or '
+         '(not byType and hasBase and concreteDecoder is baseDec and state == stDecodeValue) or '
+         '(not byType and not hasBase and concreteDecoder is None and state == stTryAsExplicitTag))')],
+    note='the lookup itself is contract type.tagmap::TagMap.__getitem__')
+BY_SPEC_MAP.id += '+tagmap'
+BY_SPEC_MAP.globals.update(BY_SPEC.globals)
+BY_SPEC_MAP.globals.update({'inMap': z3.Bool('spec.map.has'), 'chosenType': CHOSEN_T})
+BY_SPEC.exit_ensures = list(BY_SPEC.exit_ensures) + [
+    ('the-guide-stays', 'state == stDecodeValue ==> asn1Spec is old(asn1Spec)')]
+CONTRACTS = CONTRACTS + [BY_SPEC_MAP]
+
+
+# ---- last resort: an element whose tags select no codec is unwrapped only if it can be an EXPLICIT tag ----------------------
+RAW_DEC = Obj('RawPayloadDecoder', {'__truthy__': True}, name='rawPayloadDecoder')
+ERR_STATE = Obj('state', {}, name='defaultErrorState')
+
+
+def _outer_tagset(ex, env):
+    first = Obj('Tag', {'tagFormat': z3.Int('outer.tagFormat'), 'tagClass': z3.Int('outer.tagClass')}, name='tagSet[0]')
+
+    def getitem(ex2, self, i):
+        if concrete(i) == 0:
+            return first
+        raise Unsupported('tagSet[%r]' % (i,))
+    return Obj('TagSet', {'__truthy__': z3.Bool('tagSet.nonEmpty')}, {'__getitem__': getitem}, name='tagSet')
+
+
+AS_EXPLICIT = region(
+    'stTryAsExplicitTag', 'state is stTryAsExplicitTag', 'complete',
+    dict(tagSet=PDerived(_outer_tagset), state=PConst(STATES['stTryAsExplicitTag']), concreteDecoder=PConst(None)),
+    properties=['C13', 'C15', 'C16'],
+    requires=['0 <= fmt', '0 <= cls'],
+    exit_ensures=[
+        ('constructed-non-universal-is-unwrapped', '(nonEmpty and fmt == 32 and cls != 0) ==> '
+                                                   '(concreteDecoder is rawDecoder and state == stDecodeValue)'),
+        ('anything-else-is-the-error-state', '(not nonEmpty or fmt != 32 or cls == 0) ==> '
+                                             '(concreteDecoder is None and state is errorState)')],
+    note='X.690 8.14: an explicit tag is a constructed, non-UNIVERSAL element around the tagged value; a primitive or '
+         'UNIVERSAL element that matched nothing is never unwrapped (C13: wrong tags are rejected, not skipped over)')
+AS_EXPLICIT.params['self'] = PObj('SingleItemDecoder', supportIndefLength=PBool(), defaultErrorState=PConst(ERR_STATE))
+AS_EXPLICIT.globals.update({'nonEmpty': z3.Bool('tagSet.nonEmpty'), 'fmt': z3.Int('outer.tagFormat'),
+                            'cls': z3.Int('outer.tagClass'), 'rawDecoder': RAW_DEC, 'errorState': ERR_STATE,
+                            'rawPayloadDecoder': RAW_DEC, 'tag': dict(TAGC, __name__='tag')})
+CONTRACTS = CONTRACTS + [AS_EXPLICIT]
+
+
+# ---- SEQUENCE / SET with a guiding type: which component an element goes to, and that none that must be there is missing -----
+# schema seen through NamedTypes: N components, optional(i) / defaulted(i) for 0 <= i < N
+NT_N = z3.Int('schema.N')
+NT_OPT = z3.Function('schema.optional', I, BoolSort())
+NT_DEF = z3.Function('schema.defaulted', I, BoolSort())
+NT_HAS_OD = z3.Bool('schema.hasOptionalOrDefault')
+_qi = z3.Int('i!q')
+IntSet = z3.ArraySort(I, BoolSort())
+
+
+def nt_required(i):
+    return And(i >= 0, i < NT_N, Not(NT_OPT(i)), Not(NT_DEF(i)))
+
+
+# invariant of a NamedTypes object, established by NamedTypes.__init__ (assumed here): the cached summary flag
+NT_INVARIANT = And(NT_N >= 0, NT_HAS_OD == z3.Exists([_qi], And(_qi >= 0, _qi < NT_N, Or(NT_OPT(_qi), NT_DEF(_qi)))))
+
+
+def _nt_named_types(ex, env):
+    def getitem(ex2, self, idx):
+        idx = toint(idx)
+        if not ex2.choose(And(idx >= 0, idx < NT_N), 'component-exists'):
+            if ex2.choose(idx < 0, 'negative-index'):
+                raise Unsupported('negative component index')
+            raise _Raise(ExcV('IndexError'))
+        return Obj('NamedType', {'isOptional': NT_OPT(idx), 'isDefaulted': NT_DEF(idx), 'openType': None,
+                                 'asn1Object': Obj('Asn1Type', {'kind': 'exact', 'position': idx}, name='componentType')},
+                   name='namedType')
+
+    def near_map(ex2, self, idx):
+        """NamedTypes.getTagMapNearPosition (assumed): the types allowed at or past idx, up to the next mandatory one"""
+        idx = toint(idx)
+        if not ex2.choose(And(idx >= 0, idx < NT_N), 'position-in-range'):
+            raise _Raise(ExcV('PyAsn1Error'))
+        return Obj('TagMap', {'kind': 'near', 'position': idx}, name='tagMapNearPosition')
+
+    def near_type(ex2, self, tagSet, idx):
+        """NamedTypes.getPositionNearType (assumed): idx + position of the tags within the components from idx up to and
+        including the next mandatory one; PyAsn1Error if none of them has these tags"""
+        idx = toint(idx)
+        if ex2.choose(ex2.fresh('near.unknown', BoolSort()), 'tags-not-allowed-here'):
+            raise _Raise(ExcV('PyAsn1Error'))
+        j = ex2.fresh('near.position', I)
+        ex2.assume(And(j >= idx, j < NT_N, z3.ForAll([_qi], z3.Implies(And(_qi >= idx, _qi < j), Not(nt_required(_qi))))))
+        return j
+
+    def by_type(ex2, self, tagSet):
+        """NamedTypes.getPositionByType (assumed): the position of the component with these tags, or PyAsn1Error"""
+        if ex2.choose(ex2.fresh('bytype.unknown', BoolSort()), 'tags-unknown'):
+            raise _Raise(ExcV('PyAsn1Error'))
+        j = ex2.fresh('bytype.position', I)
+        ex2.assume(And(j >= 0, j < NT_N))
+        return j
+
+    def issubset(ex2, self, other):
+        arr = other.fields['arr']
+        return z3.ForAll([_qi], z3.Implies(nt_required(_qi), z3.Select(arr, _qi)))
+    required = Obj('frozenset', {}, {'issubset': issubset}, name='requiredComponents')
+    return Obj('NamedTypes', {'__truthy__': NT_N > 0, 'hasOptionalOrDefault': NT_HAS_OD, 'hasOpenTypes': False,
+                              'tagMapUnique': Obj('TagMap', {'kind': 'unique', 'position': -1}, name='tagMapUnique'),
+                              'requiredComponents': required},
+               {'__getitem__': getitem, 'getTagMapNearPosition': near_map, 'getPositionNearType': near_type,
+                'getPositionByType': by_type, '__len__': lambda ex2, self: NT_N}, name='namedTypes')
+
+
+def _nt_set_ctor(ex, *a):
+    if a:
+        raise Unsupported('set(iterable)')
+
+    def add(ex2, self, item):
+        self.fields['arr'] = z3.Store(self.fields['arr'], toint(item), True)
+    return Obj('set', {'arr': z3.K(I, False)}, {'add': add}, name='seenIndices')
+
+
+def _nt_record(ex, env):
+    def set_pos(ex2, self, idx, value, *a, **k):
+        """univ.SequenceAndSetBase.setComponentByPosition (assumed): stores the value at the position or raises"""
+        if ex2.choose(ex2.fresh('set.refused', BoolSort()), 'assignment-refused'):
+            raise _Raise(ExcV('PyAsn1Error'))
+        self.fields['assigned'] = z3.Store(self.fields['assigned'], toint(idx), True)
+        self.fields['lastPosition'] = toint(idx)
+        self.fields['lastValueUid'] = IntVal(value.uid if isinstance(value, Obj) else -2)
+    return Obj('Sequence', {'assigned': z3.K(I, False), 'lastPosition': IntVal(-1), 'lastValueUid': IntVal(-1),
+                            'isInconsistent': False}, {'setComponentByPosition': set_pos}, name='asn1Object')
+
+
+def _nt_decode(ex, substrate, asn1Spec=None, **options):
+    """assumed contract of decodeFun on the content octets: consumes at least one octet and returns a value decoded under
+    the guide it was given, or raises"""
+    if ex.choose(ex.fresh('element.raises', BoolSort()), 'element-raises'):
+        raise _Raise(ExcV('PyAsn1Error'))
+    k = ex.fresh('element.octets', I)
+    ex.assume(k >= 1)
+    substrate.fields['pos'] = substrate.fields['pos'] + k
+    return Obj('Decoded', {'decodedWith': asn1Spec, 'effectiveTagSet': Obj('TagSet', {}, name='component.effectiveTagSet')},
+               name='component')
+
+
+_nt_decode.is_generator_model = True
+IS_SET = z3.Bool('spec.isSet')
+
+
+def _nt_spec(ex, env):
+    return Obj('Asn1Type', {'typeId': 'set-type-id' if ex.choose(IS_SET, 'set-or-sequence') else 'sequence-type-id',
+                            'componentType': env['namedTypes0']}, name='asn1Spec')
+
+
+def _below(ex, arr, bound):
+    return z3.ForAll([_qi], z3.Implies(z3.Select(arr, _qi), _qi < toint(bound)))
+
+
+def _required_in(ex, arr):
+    return z3.ForAll([_qi], z3.Implies(nt_required(_qi), z3.Select(arr, _qi)))
+
+
+RECORD_LOOP = Contract(
+    id='ber.decoder::ConstructedPayloadDecoderBase.valueDecoder@record-components', file=F,
+    qual='ConstructedPayloadDecoderBase.valueDecoder', region='asn1Spec.typeId in (univ.Sequence.typeId, univ.Set.typeId)',
+    is_generator=True, properties=['C10', 'C09', 'C04'],
+    params=dict(self=PObj('ConstructedPayloadDecoderBase'), namedTypes0=PDerived(_nt_named_types), asn1Spec=PDerived(_nt_spec),
+                asn1Object=PDerived(_nt_record),
+                substrate=PDerived(lambda ex, env: Obj('Stream', {'pos': z3.Int('substrate.pos0')},
+                                                       {'tell': lambda ex2, self: self.fields['pos']}, name='substrate')),
+                original_position=PDerived(lambda ex, env: env['substrate'].fields['pos']),
+                length=PInt(), options=POptions()),
+    globals={'univ': {'Sequence': {'typeId': 'sequence-type-id'}, 'Set': {'typeId': 'set-type-id'}, '__name__': 'univ'},
+             'set': FnV(_nt_set_ctor, 'set'), 'schemaInvariant': NT_INVARIANT, 'isSet': IS_SET, 'hasOD': NT_HAS_OD,
+             'uid_of': FnV(lambda ex, o: IntVal(o.uid), 'uid_of'), 'N': NT_N, 'all_below': FnV(_below, 'all_below'), 'required_in': FnV(_required_in, 'required_in')},
+    requires=['schemaInvariant', 'length >= 0'],
+    calls={'decodeFun': _nt_decode},
+    loops={0: Loop(invariant=['idx >= 0', 'seenIndices.arr == asn1Object.assigned',
+                              '(not isSet) ==> all_below(seenIndices.arr, idx)',
+                              'substrate.pos >= original_position', 'not value_yielded()'],
+                   havoc_fields=['substrate.pos', 'seenIndices.arr', 'asn1Object.assigned', 'asn1Object.lastPosition',
+                                 'asn1Object.lastValueUid'],
+                   variant='length - (substrate.pos - original_position)',
+                   iter_ensures=[
+                       # the element just decoded is what gets stored ...
+                       'asn1Object.lastValueUid == uid_of(component)',
+                       # ... in a SEQUENCE never before the position reached so far: wire order is schema order and no
+                       # component is assigned twice
+                       '(not isSet) ==> (asn1Object.lastPosition >= iter_old(idx) and idx == asn1Object.lastPosition + 1)',
+                       # without OPTIONAL/DEFAULT members the k-th element is decoded under exactly the k-th component type
+                       '(not isSet and not hasOD and N > 0) ==> (component.decodedWith.kind == "exact" and '
+                       'component.decodedWith.position == iter_old(idx) and asn1Object.lastPosition == iter_old(idx))',
+                       # members of a SET are found by their tags among all members
+                       '(isSet and N > 0) ==> component.decodedWith.kind == "unique"'])},
+    exit_ensures=[
+        # C10: whatever is accepted has every mandatory component
+        ('every-mandatory-component-assigned', 'required_in(asn1Object.assigned)'),
+        ('all-content-octets-consumed', 'substrate.pos - original_position >= length')],
+    may_raise={'PyAsn1Error': True},
+    note='NamedTypes lookups, setComponentByPosition and decodeFun are assumed models (stated with each); the schema is '
+         'any number of components with any OPTIONAL/DEFAULT pattern')
+CONTRACTS = CONTRACTS + [RECORD_LOOP]
+
+
+def _nt_decode_indef(ex, substrate, asn1Spec=None, **options):
+    """as _nt_decode, with allowEoo=True: the end-of-octets marker may come instead of an element"""
+    if ex.choose(ex.fresh('element.eoo', BoolSort()), 'end-of-octets'):
+        return END_OF_OCTETS
+    return _nt_decode(ex, substrate, asn1Spec, **options)
+
+
+_nt_decode_indef.is_generator_model = True
+
+
+def _nt_record_indef(ex, env):
+    o = _nt_record(ex, env)
+    o.fields['componentType'] = env['namedTypes0']
+    o.fields['typeId'] = env['asn1Spec'].fields['typeId']
+    return o
+
+
+RECORD_LOOP_INDEF = Contract(
+    id='ber.decoder::ConstructedPayloadDecoderBase.indefLenValueDecoder@record-components', file=F,
+    qual='ConstructedPayloadDecoderBase.indefLenValueDecoder', region=RECORD_LOOP.region,
+    is_generator=True, properties=['C10', 'C09', 'C04'],
+    params=dict(RECORD_LOOP.params, asn1Object=PDerived(_nt_record_indef)),
+    globals=dict(RECORD_LOOP.globals, eoo={'endOfOctets': END_OF_OCTETS, '__name__': 'eoo'}),
+    requires=['schemaInvariant'],
+    calls={'decodeFun': _nt_decode_indef},
+    loops={0: Loop(invariant=[i for i in RECORD_LOOP.loops[0].invariant],
+                   havoc_fields=list(RECORD_LOOP.loops[0].havoc_fields),
+                   # asn1Spec is re-assigned at the top of every iteration before it is read: whatever the previous
+                   # iteration left is a value without attributes (any use of it would stop the analysis)
+                   decl={'asn1Spec': Obj('Stale', {}, name='guide-of-the-previous-iteration')},
+                   iter_ensures=list(RECORD_LOOP.loops[0].iter_ensures) + [
+                       # an element beyond the last component of a SEQUENCE is refused, not stored
+                       '(not isSet and N > 0) ==> asn1Object.lastPosition < N'])},
+    exit_ensures=[('every-mandatory-component-assigned', 'required_in(asn1Object.assigned)'),
+                  ('ends-at-the-end-of-octets-marker', 'component is eoo.endOfOctets')],
+    may_raise={'PyAsn1Error': True},
+    note=RECORD_LOOP.note)
+CONTRACTS = CONTRACTS + [RECORD_LOOP_INDEF]
+
+
+# ---- SEQUENCE OF / SET OF with a guiding type: every element, in wire order, under the one component type -------------------
+ELEMENT_T = Obj('Asn1Type', {'kind': 'element-type'}, name='componentType')
+
+
+def _of_record(ex, env):
+    def set_pos(ex2, self, idx, value, *a, **k):
+        """univ.SequenceOfAndSetOfBase.setComponentByPosition (assumed): stores the value at the position or raises"""
+        if ex2.choose(ex2.fresh('set.refused', BoolSort()), 'assignment-refused'):
+            raise _Raise(ExcV('PyAsn1Error'))
+        self.fields['count'] = self.fields['count'] + 1
+        self.fields['lastPosition'] = toint(idx)
+        self.fields['lastValueUid'] = IntVal(value.uid if isinstance(value, Obj) else -2)
+    return Obj('SequenceOf', {'count': IntVal(0), 'lastPosition': IntVal(-1), 'lastValueUid': IntVal(-1)},
+               {'setComponentByPosition': set_pos}, name='asn1Object')
+
+
+_OF_PARAMS = dict(self=PObj('ConstructedPayloadDecoderBase'),
+                  asn1Spec=PConst(Obj('Asn1Type', {'typeId': 'sequence-of-type-id', 'componentType': ELEMENT_T}, name='asn1Spec')),
+                  asn1Object=PDerived(_of_record), substrate=RECORD_LOOP.params['substrate'],
+                  original_position=RECORD_LOOP.params['original_position'], length=PInt(), options=POptions())
+_OF_ITER = ['asn1Object.lastValueUid == uid_of(component)',
+            # the k-th element on the wire becomes the k-th member: nothing dropped, duplicated or reordered
+            'asn1Object.lastPosition == iter_old(idx) and idx == iter_old(idx) + 1',
+            'asn1Object.count == iter_old(asn1Object.count) + 1',
+            'component.decodedWith is elementType']
+_OF_INV = ['idx >= 0', 'asn1Object.count == idx', 'substrate.pos >= original_position', 'not value_yielded()']
+_OF_HAVOC = ['substrate.pos', 'asn1Object.count', 'asn1Object.lastPosition', 'asn1Object.lastValueUid']
+_OF_GLOBALS = dict(RECORD_LOOP.globals, elementType=ELEMENT_T)
+OF_LOOP = Contract(
+    id='ber.decoder::ConstructedPayloadDecoderBase.valueDecoder@collection-components', file=F,
+    qual='ConstructedPayloadDecoderBase.valueDecoder', region=RECORD_LOOP.region + ' #else',
+    is_generator=True, properties=['C10', 'C09', 'C01'], params=_OF_PARAMS, globals=_OF_GLOBALS,
+    requires=['length >= 0'], calls={'decodeFun': _nt_decode},
+    loops={0: Loop(invariant=_OF_INV, havoc_fields=_OF_HAVOC, variant='length - (substrate.pos - original_position)',
+                   iter_ensures=_OF_ITER)},
+    exit_ensures=[('as-many-members-as-elements', 'asn1Object.count == idx'),
+                  ('all-content-octets-consumed', 'substrate.pos - original_position >= length')],
+    may_raise={'PyAsn1Error': True}, note='setComponentByPosition and decodeFun are assumed models')
+
+
+def _of_loop_indef():
+    c = Contract(
+        id='ber.decoder::ConstructedPayloadDecoderBase.indefLenValueDecoder@collection-components', file=F,
+        qual='ConstructedPayloadDecoderBase.indefLenValueDecoder', region=RECORD_LOOP.region + ' #else',
+        is_generator=True, properties=['C10', 'C09', 'C01'], params=_OF_PARAMS,
+        globals=dict(_OF_GLOBALS, eoo={'endOfOctets': END_OF_OCTETS, '__name__': 'eoo'}),
+        calls={'decodeFun': _nt_decode_indef},
+        loops={0: Loop(invariant=_OF_INV, havoc_fields=_OF_HAVOC, iter_ensures=_OF_ITER)},
+        exit_ensures=[('as-many-members-as-elements', 'asn1Object.count == idx'),
+                      ('ends-at-the-end-of-octets-marker', 'component is eoo.endOfOctets')],
+        may_raise={'PyAsn1Error': True}, note='setComponentByPosition and decodeFun are assumed models')
+    return c
+
+
+OF_LOOP_INDEF = _of_loop_indef()
+
+# ---- ... and the constraints of the constructed type itself are enforced before the value is handed out (C10) ---------------
+INCONSISTENCY = ExcV('ValueConstraintError')
+
+
+def _tail_object(ex, env):
+    return Obj('Asn1Value', {'isInconsistent': INCONSISTENCY if ex.choose(z3.Bool('value.inconsistent'), 'inconsistent')
+                             else False}, name='asn1Object')
+
+
+def _tail(qual):
+    return Contract(
+        id='ber.decoder::ConstructedPayloadDecoderBase.%s@result' % qual, file=F,
+        qual='ConstructedPayloadDecoderBase.%s' % qual, region='tail:inconsistency = asn1Object.isInconsistent',
+        is_generator=True, properties=['C10', 'C14'],
+        params=dict(self=PObj('ConstructedPayloadDecoderBase'), asn1Object=PDerived(_tail_object), length=PInt(),
+                    options=POptions(), substrateFun=PConst(None)),
+        globals={'inconsistent': z3.Bool('value.inconsistent')},
+        yield_ensures=[('only-consistent-values-are-handed-out', 'not inconsistent and y is asn1Object')],
+        exit_ensures=[('one-result', 'nyields() == 1')],
+        raises={'ValueConstraintError': 'inconsistent'},
+        note='isInconsistent evaluates the size / inner-type constraints of SEQUENCE OF, SET OF, SEQUENCE and SET '
+             '(type.univ); here: the decoder consults it and refuses the value')
+
+
+CONTRACTS = CONTRACTS + [OF_LOOP, OF_LOOP_INDEF, _tail('valueDecoder'), _tail('indefLenValueDecoder')]
